@@ -376,7 +376,10 @@ HeldView == [k \in DOMAIN held |-> [tag |-> held[k].tag, n |-> IF held[k].tag = 
 View == <<st, HeldView>>
 
 \* rendered into the dot dump: one JSON-ish string per state (parsed by the orchestrator)
-DumpAlias == [j |-> ToString(st.data) \o "|" \o ToString(st.lr) \o "|" \o ToString(st.prev) \o "|" \o ToString(Len(held))]
+TagCode(t) == CASE t = "own" -> 1 [] t = "str" -> 2 [] t = "bytes" -> 3 [] t = "next" -> 4
+DumpAlias == [j |-> ToString(st.data) \o "|" \o ToString(st.lr) \o "|" \o ToString(st.prev) \o "|"
+                    \o ToString([k \in DOMAIN held |-> TagCode(held[k].tag)]) \o "|"
+                    \o ToString([k \in DOMAIN held |-> HeldView[k].n])]
 
 -----------------------------------------------------------------------------
 (* invariants, evaluated by TLC in every reachable state *)
